@@ -18,7 +18,19 @@ import SeedModel.Parse
 import SeedProofs.ParseProps
 import SeedProofs.Lemmas.ParseRT2Image
 import SeedProofs.Lemmas.LexRTPrint
+import SeedProofs.Lemmas.C08Necessary
 namespace Seed.C08
+
+/-! ### every printed parenthesis is necessary (third session; `Lemmas/C08Necessary*.lean`, whole grammar)
+
+`parseExpr_paren_count` (one induction over the 22 parser functions): the parser never returns a tree whose printing has more
+`(` than the tokens it consumed.  Hence `printed_paren_necessary` — delete ANY one pair of parentheses the printer put, at
+any depth, in any construct, and no parse of what is left, at any fuel, gives the tree back (up to positions);
+`printed_parens_minimal` — among all token lists that parse to a well-formed tree the printed one has the fewest `(`;
+`prE_paren` / `operand_slots` — the printer parenthesises exactly a left operand of strictly lower tier, a right operand of
+lower or equal tier, and `..` anywhere but at the loosest level; `ctx_paren_necessary` — the same at tree level for
+one-hole contexts (operands of operators and of `..`, receivers of the five postfix forms, index expressions). -/
+-- audit: Seed.C08N.parseExpr_paren_count Seed.C08N.parseStmts_paren_count Seed.C08N.parseProg_paren_count Seed.C08N.fewer_parens_never_parse Seed.C08N.fewer_parens_never_parse_prog Seed.C08N.printed_parens_minimal Seed.C08N.printed_parens_minimal_prog Seed.C08N.printed_paren_necessary Seed.C08N.printed_paren_necessary_prog Seed.C08N.printed_paren_necessary_parseProg Seed.C08N.prE_paren Seed.C08N.operand_slots Seed.C08N.ctx_paren_necessary Seed.C08N.ctx_no_paren
 
 -- audit: Seed.parse_print Seed.left_assoc Seed.tighter_first_lt Seed.tighter_first_gt Seed.range_loosest_right Seed.range_loosest_left Seed.range_left_assoc Seed.neg_literal_operand Seed.neg_literal_after_operand Seed.neg_literal_after_operator Seed.no_unary_minus Seed.parens_override_left Seed.parens_override_right Seed.binOps_tiers Seed.roundtrip_rel Seed.roundtrip_parseExpr
 open Seed
